@@ -19,6 +19,15 @@ def generate(r, tier, build):
     for _ in range(200 * k):
         gen = r.choice(["xoshiro", "splitmix", "wyrand"])
         reqs.append("word gen=%s seed=%d via=from_seed ops=%s" % (gen, r.edge64(), ",".join(r.choice(["f32", "f64"]) for _ in range(r.range(1, 6)))))
+    # Xoshiro256 with injected states whose raw word (xoshiro256+: s0 + s3) has a chosen mantissa field: all zero (exactly 1.0), all ones, single bits, random
+    for _ in range(300 * k):
+        op = r.choice(["f32", "f64"])
+        mb, sh = (23, 41) if op == "f32" else (52, 12)
+        man = r.choice([0, 0, (1 << mb) - 1, 1, 1 << (mb - 1), r.below(1 << mb)])
+        word = (man << sh) | r.choice([0, (1 << sh) - 1, r.below(1 << sh)])
+        s0 = r.choice([0, 1, r.u64()])
+        s3 = (word - s0) % (1 << 64)
+        reqs.append("word gen=xoshiro state=%d,%d,%d,%d via=serde ops=%s,%s" % (s0, r.choice([0, r.u64()]), r.choice([0, r.u64()]), s3, op, r.choice(["u64", "f32", "f64", "u32"])))
     return reqs
 
 
@@ -42,6 +51,16 @@ def oracle(req, impl, build):
                     return "next_f32 outside [1,2)"
                 if d["ty"] == "f64" and not (0x3FF0000000000000 <= v < 0x4000000000000000):
                     return "next_f64 outside [1,2)"
+    if req.startswith("word") and " state=" in req:
+        # the raw word of xoshiro256+ is s0 + s3; the unit float is that word's top bits under the exponent of 1.0 (computed here, independently)
+        d = O.kv(req)
+        st = [int(x) for x in d["state"].split(",")]
+        word = (st[0] + st[3]) % (1 << 64)
+        op = d["ops"].split(",")[0]
+        want = (127 << 23 | word >> 41) if op == "f32" else (1023 << 52 | word >> 12)
+        tok = impl.split()[0]
+        if tok.startswith("f:") and int(tok[2:]) != want:
+            return "next_%s on the raw word %#x returned bits %#x, not %#x (the value whose mantissa is the word's top bits)" % (op, word, int(tok[2:]), want)
     if req.startswith("word"):
         for tok in impl.split():
             if tok.startswith("f:"):
